@@ -3,6 +3,7 @@ Props/C08.lean — C08 "delete() removes the tags and nothing else".
 Formats with a Lean container model: FLAC.
 -/
 import MutagenModel.Proofs.Container.Flac
+import MutagenModel.Proofs.Container.ApeFile
 import MutagenModel.Proofs.Container.Id3File
 set_option linter.unusedVariables false
 namespace Mutagen.C08
@@ -48,5 +49,18 @@ theorem id3_retag_after_delete (L : Id3F.Layout) (ha : (Id3F.Layout.mk [] L.audi
   obtain ⟨hd, hh, hs⟩ := Id3F.save_layout ⟨[], L.audio, []⟩ ha vmaj hvm frames pad 0 [] p (by simpa using hp) hfit
   refine ⟨hd, hh, ?_⟩
   simpa [Id3F.Layout.render, Id3F.newV1] using hs
+
+/-! ## APEv2-tagged files -/
+
+/-- deleting the tag mutagen wrote leaves exactly the audio: no header, no items, no footer -/
+theorem ape_delete_leaves_audio (audio : Bytes) (items : List Ape.Item)
+    (hs : ((items.map Ape.encodeItem).flatten).length + 32 < 256 ^ 4) (ha : ApeF.AudioOK audio (Ape.encodeTag items)) :
+    ApeF.delete (audio ++ Ape.encodeTag items) = .ok audio :=
+  ApeF.delete_tag audio items hs ha
+
+/-- deleting again changes nothing, and a new tag can be saved afterwards: it is appended to the audio -/
+theorem ape_delete_idempotent_and_retag (audio newTag : Bytes) (h : ApeF.locate audio = .ok none) :
+    ApeF.delete audio = .ok audio ∧ ApeF.save audio newTag = .ok (audio ++ newTag) :=
+  ⟨ApeF.delete_untagged audio h, ApeF.save_untagged audio newTag h⟩
 
 end Mutagen.C08
